@@ -16,6 +16,9 @@ pub struct V<'a> {
     pub doc: &'a ExecDoc,
     pub out: Vec<Finding>,
     frags: BTreeMap<String, &'a ExecDef>,
+    /// nesting of merge_check: a fragment cycle that runs through a field (`fragment F on User { best { ...F } }`, reported
+    /// by the cycle rule) would make the pairwise descent endless
+    merge_depth: usize,
 }
 
 fn f(rule: &'static str, detail: String) -> Finding {
@@ -28,6 +31,7 @@ pub fn validate(sch: &Sch, doc: &ExecDoc) -> Vec<Finding> {
         doc,
         out: vec![],
         frags: BTreeMap::new(),
+        merge_depth: 0,
     };
     v.run();
     let mut out = v.out;
@@ -436,6 +440,14 @@ impl<'a> V<'a> {
 
     // ---------- 5.3.2 FieldsInSetCanMerge ----------
     fn merge_check(&mut self, sel: &SelSet, ty: &str) {
+        if self.merge_depth >= 24 {
+            return;
+        }
+        self.merge_depth += 1;
+        self.merge_check_here(sel, ty);
+        self.merge_depth -= 1;
+    }
+    fn merge_check_here(&mut self, sel: &SelSet, ty: &str) {
         let mut fields: Vec<(String, String, &Sel)> = vec![]; // (response key, parent type, field)
         self.collect_fields_static(sel, ty, &mut fields, &mut BTreeSet::new());
         for i in 0..fields.len() {
